@@ -20,22 +20,22 @@ KINDS = {
     "data-race": ("[]", "[EAdd %(p)s; EFin]"),
     "deadline": ("[SetDL (Some %(z)s)]", "[Tick %(z)s]"),
     "deadline-twice": ("[SetDL (Some 30); RCall 1; RStep; RStep; RStep; Tick 30; Fire; RWake BTimer; SetDL (Some (30 + %(z)s))]", "[Tick %(z)s]"),
-    "local-close": ("[]", "[LLoad; LCas; LNotify; LClean]"),
+    "local-close": ("[]", "[LLoad; LCas; LClean; LNotify]"),
     "peer-close": ("[]", "[PClose1; PClose2]"),
-    "session-close": ("[]", "[SClose; LLoad; LCas; LNotify; LClean]"),
-    "peer-session-close": ("[]", "[SClose; LLoad; LCas; LNotify; LClean]"),
-    "peer-death": ("[]", "[SClose; LLoad; LCas; LNotify; LClean]"),
+    "session-close": ("[]", "[SClose; LLoad; LCas; LClean; LNotify]"),
+    "peer-session-close": ("[]", "[SClose; LLoad; LCas; LClean; LNotify]"),
+    "peer-death": ("[]", "[SClose; LLoad; LCas; LClean; LNotify]"),
     "peer-close-queue-full": ("[]", "[PClose1; PClose2]"),
     "close-vs-callback-start": ("[SetCb; EAdd 4; EFin]", "[LLoad; LCas; LNotify; LClean]"),
     # a read for 8 bytes parked inside OnData with 4 bytes there (w_min = 8, see case_to_coq)
-    "ondata-local-session-close": ("[EAdd 4; EFin]", "[SClose; LLoad; LCas; LNotify; LClean]"),
-    "ondata-peer-session-close": ("[EAdd 4; EFin]", "[SClose; LLoad; LCas; LNotify; LClean]"),
-    "ondata-peer-death": ("[EAdd 4; EFin]", "[SClose; LLoad; LCas; LNotify; LClean]"),
-    "ondata-deferred-close-local-session-close": ("[EAdd 4; EFin]", "[LDefer1; LDefer2; SClose; LLoad; LCas; LNotify; LClean]"),
-    "ondata-deferred-close-peer-session-close": ("[EAdd 4; EFin]", "[LDefer1; LDefer2; SClose; LLoad; LCas; LNotify; LClean]"),
-    "ondata-deferred-close-peer-death": ("[EAdd 4; EFin]", "[LDefer1; LDefer2; SClose; LLoad; LCas; LNotify; LClean]"),
-    "ondata-deferred-close-only": ("[EAdd 4; EFin]", "[LDefer1; LDefer2]"),
-    "ondata-deferred-close-peer-close": ("[EAdd 4; EFin]", "[LDefer1; LDefer2; PClose1; PClose2]"),
+    "ondata-local-session-close": ("[SetCb; EAdd 4; EFin]", "[SClose; LLoad; LCas; LNotify; LClean]"),
+    "ondata-peer-session-close": ("[SetCb; EAdd 4; EFin]", "[SClose; LLoad; LCas; LNotify; LClean]"),
+    "ondata-peer-death": ("[SetCb; EAdd 4; EFin]", "[SClose; LLoad; LCas; LNotify; LClean]"),
+    "ondata-deferred-close-local-session-close": ("[SetCb; EAdd 4; EFin]", "[LDefer1; LDefer2; SClose; LLoad; LCas; LNotify; LClean]"),
+    "ondata-deferred-close-peer-session-close": ("[SetCb; EAdd 4; EFin]", "[LDefer1; LDefer2; SClose; LLoad; LCas; LNotify; LClean]"),
+    "ondata-deferred-close-peer-death": ("[SetCb; EAdd 4; EFin]", "[LDefer1; LDefer2; SClose; LLoad; LCas; LNotify; LClean]"),
+    "ondata-deferred-close-only": ("[SetCb; EAdd 4; EFin]", "[LDefer1; LDefer2]"),
+    "ondata-deferred-close-peer-close": ("[SetCb; EAdd 4; EFin]", "[LDefer1; LDefer2; PClose1; PClose2]"),
 }
 
 
